@@ -56,6 +56,10 @@ def build(backend, tables=True, profile="release", features=()):
     tdir = os.path.join(BUILD, cid)
     os.makedirs(tdir, exist_ok=True)
     feats = list(features) + (["tables"] if tables else [])
+    if backend in ("v2", "v512"):
+        feats.append("simd")
+    if backend == "v512":
+        feats.append("avx512")
     cmd = ["cargo"]
     if b["toolchain"]:
         cmd.append("+" + b["toolchain"])
